@@ -321,8 +321,13 @@ func (e *Engine) ObservePackage(pkgFullTriggers []annotation.FullTrigger) {
 }
 
 func (e *Engine) buildPkgInferenceMap(triggers []annotation.FullTrigger) {
-	// Map each site to all the triggers controlled by the site
-	controlledTgsBySite := map[primitiveSite][]annotation.FullTrigger{}
+	// Map each site to all the triggers controlled by the site. The map accumulates over the calls
+	// made for one package: a controlling site may be determined only while a later batch of
+	// triggers is observed, and must then still activate the triggers of the earlier batches.
+	controlledTgsBySite := e.controlledTriggersBySite
+	if controlledTgsBySite == nil {
+		controlledTgsBySite = map[primitiveSite][]annotation.FullTrigger{}
+	}
 	for _, trigger := range triggers {
 		if !trigger.Controlled() {
 			continue
